@@ -2690,6 +2690,55 @@ def _forward_scratch(body, f, facts, top, i, scratch, tail_rest, member_of_this)
     return len(scratch)
 
 
+def merge_adjacent_result(body, facts):
+    """`T x = f(..); lhs = x;` with x used nowhere else is `lhs = f(..);` - also when f has effects, provided the target is a
+    plain path that neither mentions x nor is touched by evaluating the call (the right operand of an assignment is
+    evaluated first).  Returns the number of merges."""
+    count = 0
+    uses = {}
+    for n in walk(body):
+        if n.get("k") == "Ref" and n.get("d") == "local":
+            uses[n.get("id")] = uses.get(n.get("id"), 0) + 1
+    for b in [x for x in walk(body) if x.get("k") == "Block"]:
+        sts = b.get("s", [])
+        out = []
+        i = 0
+        while i < len(sts):
+            st = sts[i]
+            nxt = sts[i + 1] if i + 1 < len(sts) else None
+            done = False
+            if isinstance(st, dict) and st.get("k") == "Decl" and len(st.get("vars", [])) == 1 and isinstance(nxt, dict):
+                v = st["vars"][0]
+                init = v.get("init")
+                if init is not None and not v.get("ref") and "id" in v and uses.get(v["id"], 0) == 1 and not is_pure(init, facts):
+                    u = unwrap(nxt)
+                    lhs = rhs = None
+                    if isinstance(u, dict) and u.get("k") == "Bin" and u.get("op") == "=":
+                        lhs, rhs = u.get("lhs"), u.get("rhs")
+                    elif isinstance(u, dict) and u.get("k") == "OpCall" and u.get("op") == "=" and len(u.get("args", [])) == 2:
+                        lhs, rhs = u["args"]
+                    if lhs is not None and path(lhs) is not None and not any(x.get("k") in ("Call", "MCall", "OpCall") for x in walk(lhs)):
+                        r0 = ir.unwrap_all_casts(rhs)
+                        hops = 0
+                        while isinstance(r0, dict) and r0.get("k") == "Construct" and len(r0.get("args", [])) == 1 and hops < 3:
+                            r0 = ir.unwrap_all_casts(r0["args"][0])
+                            hops += 1
+                        if isinstance(r0, dict) and r0.get("k") == "Ref" and r0.get("d") == "local" and r0.get("id") == v["id"] and \
+                                not any(x.get("k") == "Ref" and x.get("id") == v["id"] for x in walk(lhs)):
+                            keep = copy.deepcopy(init)
+                            r0.clear()
+                            r0.update(keep)
+                            out.append(nxt)
+                            i += 2
+                            count += 1
+                            done = True
+            if not done:
+                out.append(st)
+                i += 1
+        b["s"] = out
+    return count
+
+
 _SROA_COUNTER = [300000]
 
 
@@ -3630,6 +3679,7 @@ def normalise(facts, do_inline=True, do_propagate=True):
                     stats["stores_split"] = stats.get("stores_split", 0) + split_stores(f["body"], facts)
                     _tidy(f["body"])
                 stats["propagated_uses"] += propagate(f["body"], facts, memo)
+                stats["results_merged"] = stats.get("results_merged", 0) + merge_adjacent_result(f["body"], facts)
                 stats["projected"] = stats.get("projected", 0) + project_aggregates(f["body"], facts)
                 fold_constants(f["body"], facts.enums)
                 if post_lift(f["body"], inl):
